@@ -88,25 +88,26 @@ static JV with_bool(JV a,const char*k,bool v){ JV b; b.k=JV::BOOL; b.b=v; a.o.pu
 
 // texts for the random sessions: every host kind, percent-encodings in both cases, dot segments, ':' and empty first segments
 static Text random_uri(Rng&R){
-  static const char* sc[]={"","","s:","S:","hTtp:","t:"}; static const char* au[]={"","","//h","//H%41","//u%3a@Ex.COM:1","//[ABCD::1]","//[vF.a:B]","//1.2.3.4","//","//u@h:","//g:80"};
+  static const char* sc[]={"","s:","s:","s:","S:","t:"}; static const char* au[]={"","","//h","//H%41","//u%3a@Ex.COM:1","//[ABCD::1]","//[vF.a:B]","//1.2.3.4","//","//u@h:","//g:80"};
   static const char* seg[]={"",".","..","a","b","A","%41","%7e","%3A","%3a","%2e","%2E%2e","b:c","...","a%2Fb","x","y"}; static const char* qf[]={"","","?","?q","?a%41%3a","#","#f%7E","?q#f"};
   Text t=T(R.pick(std::vector<const char*>(sc,sc+6))); const char*a=au[R.below(11)]; t=t+T(a); bool abs=*a||R.below(2); int n=R.below(6); if(n==0&&!*a&&R.below(2)) abs=false;
   if(abs&&(n>0||R.below(2))) t.push_back('/'); for(int i=0;i<n;++i){ if(i) t.push_back('/'); t=t+T(seg[R.below(17)]); } return t+T(qf[R.below(8)]); }
 
 template<class A> static void random_episode(Rng&R,int steps,size_t shard,const std::vector<Text>&pool){
-  const int NS=4, NB=3; Sess<A> S(NS,NB,R.below(3)==0); S.shard=shard; g.event_to(shard,J().str("e","Reset").num("ns",NS).num("nb",NB).done());
+  const int NS=5, NB=3; Sess<A> S(NS,NB,R.below(3)==0); S.shard=shard; g.event_to(shard,J().str("e","Reset").num("ns",NS).num("nb",NB).done());
   std::string desc; static const unsigned masks[]={63,63,8,8,0,1,2,4,16,32,12,55,0x48,0xFFFFFFFFu};
-  for(int k=0;k<steps&&!S.dead;++k){ JV a; int tries=0;
-    do{ int c=R.below(100);
-      if(c<14) a=with_text(act("buf",{{"i",1+R.below(NB)}}), R.below(4)? random_uri(R) : R.pick(pool));
-      else if(c<34) a=act("parse",{{"s",1+R.below(NS)},{"i",1+R.below(NB)}});
-      else if(c<44) a=act("own",{{"s",1+R.below(NS)}});
-      else if(c<58) a=act("norm",{{"s",1+R.below(NS)},{"m",(long long)masks[R.below(14)]}});
-      else if(c<72) a=with_bool(act("add",{{"d",1+R.below(NS)},{"r",1+R.below(NS)},{"b",1+R.below(NS)}}),"o",R.below(4)==0);
-      else if(c<82) a=with_bool(act("rem",{{"d",1+R.below(NS)},{"s",1+R.below(NS)},{"b",1+R.below(NS)}}),"md",R.below(3)==0);
-      else if(c<90) a=act("free",{{"s",1+R.below(NS)}});
-      else a=act("scribble",{{"i",1+R.below(NB)},{"how",R.below(3)}});
-    } while(!S.can(a) && ++tries<40);
+  for(int k=0;k<steps&&!S.dead;++k){ JV a; bool found=false;
+    for(int attempt=0;attempt<6&&!found;++attempt){ int c=R.below(100);
+      for(int tries=0;tries<12&&!found;++tries){
+        if(c<10) a=with_text(act("buf",{{"i",1+R.below(NB)}}), R.below(4)? random_uri(R) : R.pick(pool));
+        else if(c<26) a=act("parse",{{"s",1+R.below(NS)},{"i",1+R.below(NB)}});
+        else if(c<36) a=act("own",{{"s",1+R.below(NS)}});
+        else if(c<52) a=act("norm",{{"s",1+R.below(NS)},{"m",(long long)masks[R.below(14)]}});
+        else if(c<70) a=with_bool(act("add",{{"d",1+R.below(NS)},{"r",1+R.below(NS)},{"b",1+R.below(NS)}}),"o",R.below(4)==0);
+        else if(c<84) a=with_bool(act("rem",{{"d",1+R.below(NS)},{"s",1+R.below(NS)},{"b",1+R.below(NS)}}),"md",R.below(3)==0);
+        else if(c<91) a=act("free",{{"s",1+R.below(NS)}});
+        else a=act("scribble",{{"i",1+R.below(NB)},{"how",R.below(3)}});
+        found=S.can(a); } }
     if(!S.can(a)) continue; desc+=a.dump(); g.set_case(J().str("driver","session").num("w",A::W).str("script",desc.size()>60000? desc.substr(desc.size()-60000):desc).done()); S.exec(a); }
   S.finish(); g.count(desc,true); }
 
@@ -125,7 +126,7 @@ template<class A> static bool replay_script(const JV&rec,size_t shard,int how){
 
 VH_DRIVER(session){
   std::string mode=arg_value(argc,argv,"--mode","random"); long n=atol(arg_value(argc,argv,"--n",g.thorough?"20000":"1500")); Rng R(g.seed);
-  if(mode=="random"){ std::vector<Text> pool=corpus_uris(R,false,300); int steps=atoi(arg_value(argc,argv,"--steps",g.thorough?"24":"14"));
+  if(mode=="random"){ std::vector<Text> pool=corpus_uris(R,false,300); int steps=atoi(arg_value(argc,argv,"--steps",g.thorough?"30":"20"));
     for(long i=0;i<n;++i){ if(i%2) random_episode<ApiA>(R,steps,(size_t)i,pool); else random_episode<ApiW>(R,steps,(size_t)i,pool); if(i%501==0) g.sample(J().str("episode","random session").num("steps",steps).num("index",i).done()); }
   } else { auto lines=read_lines(arg_value(argc,argv,"--script","")); long k=0; for(auto&l:lines){ bool ok=true; JV rec=jparse_line(l,&ok); if(!ok||!rec.has("script")) continue; ++k;
       if(k%2) replay_script<ApiA>(rec,(size_t)k,(int)(k%3)); else replay_script<ApiW>(rec,(size_t)k,(int)(k%3)); if(k%997==0) g.sample(J().raw("script",rec["script"].dump()).done()); } }
